@@ -35,6 +35,19 @@ def run(tier, vd):
     r4b = dict(r4)
     r4b["viol"] = [v for v in r4["viol"] if v["rule"] in ("F1", "K2", "PANIC") or (v["rule"] == "F2" and "unparsed" in v["p"])]
     report_viols(vd, "C10", r4b, {"world": "frag", "seed": sd}, lambda v: {"rule": v["rule"], "world": "frag"}, lambda v: "frag %s %s" % (v["rule"], v["p"]))
+    # IEEE 802.15.4: the neighbour solicitations / advertisements the two interfaces of the lowpan world exchange are read
+    # by an independent IPHC-length decoder and their option lists must tile the message (W6)
+    from checks import c20
+    lrf = c20.scenarios(vd, "c10")
+    ltf = os.path.join(OUT, "traces", "lowpan.c10.ndjson")
+    run_harness(exe, ["lowpan-replay", "--sched", lrf, "--out", ltf])
+    r5 = validate_traces("LowpanTrace", [ltf], parallel=1)
+    vd.add_validation(r5)
+    if not r5["hits"].get("W6"):
+        raise ToolError("lowpan world: no neighbour-discovery message was seen (W6 never exercised)")
+    r5b = dict(r5)
+    r5b["viol"] = [v for v in r5["viol"] if v["rule"] in ("W6", "PANIC")]
+    report_viols(vd, "C10", r5b, {"world": "lowpan"}, lambda v: {"rule": v["rule"], "world": "lowpan"}, lambda v: "lowpan %s %s" % (v["rule"], v["p"]), per_class=1)
     vd.cov["samples"].append({"kind": "ingress row with reply frames (source ownership, well-formedness flags from the independent parser)", "events": [e for e in read_ndjson(itf) if e.get("ev") == "row" and e.get("out")][:3]})
 
     def mut(e):
@@ -56,6 +69,10 @@ def replay(obj, vd):
         ingresscommon.replay(obj, vd, "C10")
     elif w == "neigh":
         netcommon.replay(obj, vd, "C10")
+    elif w == "lowpan":
+        from checks import c20
+        obj["property"] = "C10"
+        c20.replay(obj, vd)
     elif w == "frag":
         from checks import c12
         c12.replay(obj, vd)
